@@ -209,9 +209,11 @@ async fn spawn(engine: nu::Engine, store: Store, task: GeneratorTask) {
     let input_pipeline = if task.meta.duplex.unwrap_or(false) {
         let store = store.clone();
         let topic = task.topic.clone();
+        // Only the .send frames of the generator's own context feed it
         let options = ReadOptions::builder()
             .follow(FollowOption::On)
             .last_id(start.id)
+            .context_id(task.context_id)
             .build();
         let rx = store.read(options).await;
 
